@@ -64,6 +64,9 @@ def templates(tier):
             ('F4-not', T('a + b not == c')), ('F4-not', T('a not == b + c')), ('F4-not', T('2 not in [ 2 ]')),
             ('F4-not', T('a || b not && c')), ('F4-not', T('not a o1 b')), ('F4-not', T('a o1 not b'))]
     # F5: prefix / postfix
+    # the same token sequences written without optional spaces (fam|text): a sign next to a digit is still a prefix operator
+    out += [('F5-unary|-5++', T('- 5 ++')), ('F5-unary|10 - -2++', T('10 - - 2 ++')), ('F5-unary|-2 o1 b', T('- 2 o1 b')), ('F5-unary|a o1 -2--', T('a o1 - 2 --')),
+            ('F5-unary|+1.5++*2', T('+ 1.5 ++ * 2')), ('F5-unary|!a o1 -3', T('! a o1 - 3'))]
     out += [('F5-unary', T('- a o1 b')), ('F5-unary', T('a o1 - b')), ('F5-unary', T('a o1 b ++')),
             ('F5-unary', T('a ++ o1 b')), ('F5-unary', T('- a ++')), ('F5-unary', T('! a o1 b o2 c')),
             ('F5-unary', T('- a ++ o1 - b --')), ('F5-unary', T('a o1 ! b o2 c')), ('F5-unary', T('- ( a o1 b )')),
@@ -137,7 +140,9 @@ def harness(it, px, params):
         it.call('register_infix_op', [mkstr(o), P[o], Enum('InfixOpType', 0, 'CALC'), assoc_enum(A[o]),
                                       ArcV(Cell(echo_handler(o), 'h'))])
     text = ' '.join(toks)
-    rec = {'family': fam, 'text': text}
+    if '|' in fam:
+        fam, text = fam.split('|', 1)
+    rec = {'family': fam, 'text': text, 'toks': list(toks)}
     r = api.parse(it, text)
     rec['outcome'] = r.kind
     got = None
@@ -190,7 +195,7 @@ def harness(it, px, params):
             t1 = {o: (m.eval(P[o], model_completion=True).as_signed_long(), 'LEFT' if A[o] else 'RIGHT') for o in used}
             t2 = {o: (m.eval(P2[o], model_completion=True).as_signed_long(), 'LEFT' if A2[o] else 'RIGHT') for o in used}
             px.finding({'key': 'C02|misparse|after-reregistration|%s' % text, 'desc': 'after re-registering the operators with %s, `%s` still groups as under the old table %s' % (t2, text, t1),
-                        'text': text, 'table': t2, 'table_before': t1, 'family': fam, 'got': got2, 'want': want2, 'outcome': r2.kind, 'detail': None})
+                        'text': text, 'toks': list(toks), 'table': t2, 'table_before': t1, 'family': fam, 'got': got2, 'want': want2, 'outcome': r2.kind, 'detail': None})
         return rec
     if got != want:
         # does the mismatch need adjacent precedences?  ask for a witness without any
@@ -208,7 +213,7 @@ def harness(it, px, params):
         elif 'not' in toks:
             cause = 'not' if cause == 'grouping' else cause
         px.finding({'key': 'C02|misparse|%s|%s' % (cause, text), 'desc': 'parse of `%s` does not group as documented (%s)' % (text, cause),
-                    'text': text, 'table': table, 'family': fam, 'got': got, 'want': want, 'outcome': r.kind,
+                    'text': text, 'toks': list(toks), 'table': table, 'family': fam, 'got': got, 'want': want, 'outcome': r.kind,
                     'detail': r.detail if r.kind not in ('ok', 'err') else rec.get('err')})
     return rec
 
@@ -260,7 +265,7 @@ def run(ctx):
         want = rf.ref_parse(toks, rf.BUILTIN_INFIX)
         if got != want:
             sweep_bad.append({'key': 'C02|misparse|builtin-table|%s' % text, 'desc': 'built-in operators in `%s` do not group as the documented table says' % text,
-                              'text': text, 'table': {}, 'family': fam, 'got': got, 'want': want})
+                              'text': text, 'toks': list(toks), 'table': {}, 'family': fam, 'got': got, 'want': want})
     return judge(ctx, recs, summ, params, sweep_bad, len(sweep))
 
 
@@ -275,7 +280,7 @@ def judge(ctx, recs, summ, params, extra_findings, n_sweep):
     covers = set()
     for r in recs:
         covers.update(r.get('covers', []))
-    fams = sorted(set(f for f, _ in params['templates']))
+    fams = sorted(set(f.split('|')[0] for f, _ in params['templates']))
     for f in fams:
         if 'parsed-' + f not in covers:
             inconclusive.append('vacuity: family %s never parsed' % f)
@@ -289,7 +294,7 @@ def judge(ctx, recs, summ, params, extra_findings, n_sweep):
     validated = 0
     for key, fs in sorted(groups.items()):
         f = fs[0]
-        toks = f['text'].split()
+        toks = f.get('toks') or f['text'].split()
         table = {o: (int(p), a) for o, (p, a) in f['table'].items()}
         before = {o: (int(p), a) for o, (p, a) in f['table_before'].items()} if f.get('table_before') else None
         sc = scenario(f['text'], table, before)
@@ -313,7 +318,7 @@ def judge(ctx, recs, summ, params, extra_findings, n_sweep):
         sc = scenario(r['text'], table)
         o = ctx.native(sc, 'dev')[-1]
         validated += 1
-        want = concrete_expect(r['text'].split(), table)
+        want = concrete_expect(r.get('toks') or r['text'].split(), table)
         if o.get('kind') != 'ok' or o.get('ast') != want:
             mism.append('%s %s' % (r['text'], table))
     for mm in mism[:5]:
